@@ -36,7 +36,18 @@ GO126 = shutil.which("go1.26.8") or "/usr/local/bin/go1.26.8"
 ENGINES = {
     "sim": ("sim", "sim.test", []),
     "race": ("sim", "sim.race.test", ["-race"]),
+    # real processes in lock-step: same worker binary plus the helper that plays the process trees
+    "proc": ("sim", "sim.test", []),
 }
+HELPER = os.path.join(BIN, "vhelper")
+
+
+def build_helper():
+    os.makedirs(BIN, exist_ok=True)
+    r = subprocess.run([GO126, "build", "-o", HELPER, "."], cwd=os.path.join(VERIF, "helper"), env=GOENV, stdout=subprocess.PIPE, stderr=subprocess.STDOUT, text=True)
+    if r.returncode != 0:
+        log("BUILD FAILED (exit 2):\n" + r.stdout[-3000:])
+        sys.exit(2)
 
 # property -> settings
 PROPS = {
@@ -51,7 +62,9 @@ PROPS = {
     "C06": dict(engine="sim", quick=60, thorough=900, level="exploration"),
     "C16": dict(engine="sim", quick=60, thorough=1200, level="fault_enumeration"),
     "C13": dict(engine="race", quick=45, thorough=600, level="exploration", gomaxprocs=4),
-    "C18": dict(engine="sim", quick=30, thorough=600, level="exploration"),
+    "C18": dict(engine="sim", quick=50, thorough=700, level="exploration",
+                parts=[dict(goprop="C18", engine="sim", share=0.4), dict(goprop="C18P", engine="proc", share=0.6, gomaxprocs=4)]),
+    "C05": dict(engine="proc", quick=60, thorough=900, level="exploration", gomaxprocs=4),
 }
 DEFAULT_SEED = {"quick": 20260926, "thorough": 20260927}
 
@@ -68,6 +81,8 @@ def build(engine):
     if not os.path.exists(gosum):
         shutil.copy("/repo/utils/go.sum", gosum)
     out = os.path.join(BIN, binname)
+    if engine == "proc":
+        build_helper()
     cmd = [GO126, "test", "-c", "-tags", "verif", "-o", out] + flags + ["."]
     t0 = time.time()
     r = subprocess.run(cmd, cwd=moddir, env=GOENV, stdout=subprocess.PIPE, stderr=subprocess.STDOUT, text=True)
@@ -87,6 +102,7 @@ def run_workers(binary, specs, gomaxprocs, watchdog_s):
         env = dict(GOENV)
         env["VERIF_SPEC"] = sp["_specfile"]
         env["VERIF_SCRATCH"] = os.path.dirname(sp["_specfile"])
+        env["VERIF_HELPER"] = HELPER
         env["GOMAXPROCS"] = str(sp.get("_gomaxprocs", gomaxprocs))
         if binary.endswith("race.test"):
             env["GORACE"] = "log_path=%s halt_on_error=0" % (sp["_specfile"] + ".race")
@@ -329,7 +345,7 @@ def check(prop, tier):
     sys.exit(0)
 
 
-GO_PROPS = {"C12S": ("C12", "race")}
+GO_PROPS = {"C12S": ("C12", "race"), "C18P": ("C18", "proc")}
 
 
 def replay(path):
@@ -397,6 +413,7 @@ def selftest_determinism(prop, nseeds):
 def setup():
     for e in ENGINES:
         build(e)
+    build_helper()
     log("setup done")
 
 
